@@ -464,7 +464,10 @@ theorem substitute_sem {α : Type _} (h m h' : NNet) (c : Nat) (hw : h.wf = true
     the same list, every flip-flop/latch survives; hence (restrict) every labelling of the circuit before that is consistent
     outside `S`, restricted to the surviving lines and renamed, is consistent for the result, and (extend) a labelling of
     the circuit before whose restriction is consistent for the result and which satisfies the equations of the removed
-    lines is consistent.  (Removed nodes drive removed lines only, so nothing that survives reads a removed line.) -/
+    lines is consistent; (extension exists) every labelling of the result that is consistent outside `S` IS the restriction of
+    a labelling of the circuit before that is consistent outside `S` — a node has no connected output when it is removed,
+    so the lines removed with it carry what their (still complete) drivers compute; removed logic cannot contain a cycle,
+    no acyclicity assumption is needed. -/
 theorem remove_dangling_sem {α : Type _} (fuel : Nat) (nn nn' : NNet) (own : List Nat) (stack : List (Option Nat))
     (hw : nn.wfNoTrail = true) (ho : own.all (fun x => decide (x < nn.net.nodes.size)) = true)
     (he : removeDangling fuel nn own stack = some nn') (z : α) (neg : α → α) (prim : String → α → α → α → α → α) :
@@ -483,22 +486,25 @@ theorem remove_dangling_sem {α : Type _} (fuel : Nat) (nn nn' : NNet) (own : Li
         ConsOff nn' (fun j' => S (r.node j')) z neg prim (fun j => an (r.node j)) (fun l => v (r.line l)) →
         (∀ l, l < nn.net.lines.size → (¬ ∃ l', l' < nn'.net.lines.size ∧ r.line l' = l) → ¬ S (nn.net.line l).driver →
           v l = lineEq nn.net (spN nn.net) z neg prim an v l) →
-        ConsOff nn S z neg prim an v) := by
+        ConsOff nn S z neg prim an v) ∧
+      (∀ (S : Nat → Prop) (an' v' : Nat → α), ConsOff nn' (fun j' => S (r.node j')) z neg prim an' v' →
+        ∃ an v, ConsOff nn S z neg prim an v ∧ (∀ l', l' < nn'.net.lines.size → v (r.line l') = v' l') ∧
+          (∀ j', j' < nn'.net.nodes.size → an (r.node j') = an' j')) := by
   have ho' : ∀ x ∈ own, x < nn.net.nodes.size := fun x hx => by simpa using List.all_eq_true.mp ho x hx
-  obtain ⟨w', r, e, sq⟩ := removeDangling_emb fuel nn own stack nn' (WFm.of_wfNoTrail hw) ho' he
+  obtain ⟨w', r, e, sq, ex⟩ := removeDangling_ext z neg prim fuel nn own stack nn' (WFm.of_wfNoTrail hw) ho' he
   exact ⟨wfNoTrail_of_WFm w', r, fun j' hj => ⟨e.nodeLt j' hj, e.kind j' hj, e.name j' hj, e.pins j' hj (fun x => x)⟩, e.nodeInj, e.io,
     sq, fun l' hl => ⟨e.lineLt l' hl, (e.drv l' hl).2.1⟩, fun S an v hc => e.restrict S z neg prim an v hc,
-    fun S an v hc hrem => e.extend S z neg prim an v hc hrem⟩
+    fun S an v hc hrem => e.extend S z neg prim an v hc hrem, ex⟩
 
 /-- **`substitute` with removal of dangling logic** (an unconnected output of the instance whose driver dangles): designated
     cell exists and no connected input pin is ignored (`noIgnoredB`; no condition on the outputs), `implOKB`.  The result
     `h'` of `substitute` is the circuit `h5` that `substituteCore` builds — for which the full semantic statement
     `SubstSemStmt` holds — with dangling logic removed: `h'` embeds into `h5` as in `remove_dangling_sem` (well-formed up
     to trailing `None`s, index maps `r`, same ports, all state elements, every surviving node reads the same lines,
-    restrict / extend).  Composition: every labelling of the host that is consistent outside the cell, together with an
-    `ImplMatches` labelling of the implementation, yields a consistent labelling of `h'` (glue, then restrict); every
-    consistent labelling of `h'`, extended by values for the removed lines that satisfy their equations, yields such a
-    pair (extend, then direction (1)). -/
+    restrict / extend / extension exists).  Composition (the last two clauses): (1) every consistent labelling of `h'` is the
+    restriction of a labelling of `h5` under which the host is consistent outside the cell and the cell has the relational
+    meaning of its whole implementation; (2) every labelling of the host that is consistent outside the cell, together with
+    an `ImplMatches` labelling of the implementation, yields a consistent labelling of `h'` (glue, then restrict). -/
 theorem substitute_sem_removing {α : Type _} (h m h' : NNet) (c : Nat) (hw : h.wf = true) (mw : m.wf = true)
     (hc : c < h.net.nodes.size) (hio : h.net.io.contains c = false) (hcf : (h.net.node c).isFork = false)
     (hr : noIgnoredB h c m = true) (hok : implOKB m = true) (he : substitute h c m = some h')
@@ -520,13 +526,35 @@ theorem substitute_sem_removing {α : Type _} (h m h' : NNet) (c : Nat) (hw : h.
         ConsOff h' (fun j' => S (r.node j')) z neg prim (fun j => an (r.node j)) (fun l => v (r.line l)) →
         (∀ l, l < h5.net.lines.size → (¬ ∃ l', l' < h'.net.lines.size ∧ r.line l' = l) → ¬ S (h5.net.line l).driver →
           v l = lineEq h5.net (spN h5.net) z neg prim an v l) →
-        ConsOff h5 S z neg prim an v) := by
-  obtain ⟨h5, map, dang, sh, dn, r, hcore, ct, w', e, sq⟩ :=
-    substitute_removing h m h' c (WF.of_wf hw) (WF.of_wf mw) hc hio hcf hr hok he
+        ConsOff h5 S z neg prim an v) ∧
+      -- composed with `SubstSemStmt`: (1) a consistent labelling of `h'` extends to the circuit before the removal, where the
+      -- host is consistent outside the cell and the cell has the relational meaning of its (whole) implementation
+      (∀ an' v' : Nat → α, ConsOff h' (fun _ => False) z neg prim an' v' →
+        ∃ an5 v5 : Nat → α, (∀ l', l' < h'.net.lines.size → v5 (r.line l') = v' l') ∧ (∀ j', j' < h'.net.nodes.size → an5 (r.node j') = an' j') ∧
+          ConsOff h (fun d => d = c) z neg prim an5 v5 ∧
+          ∃ sh anm vm, implShape m = some sh ∧ ImplMatches h c m sh z neg prim anm vm v5) ∧
+      -- (2) a labelling of the host consistent outside the cell + a matching labelling of the implementation give a
+      -- consistent labelling of `h'`
+      (∀ (sh : Shape) (an v anm vm : Nat → α), implShape m = some sh → ConsOff h (fun d => d = c) z neg prim an v →
+        ImplMatches h c m sh z neg prim anm vm v →
+        ∃ an5 v5 : Nat → α, ConsOff h' (fun _ => False) z neg prim (fun j => an5 (r.node j)) (fun l => v5 (r.line l)) ∧
+          (∀ l, l < h.net.lines.size → v5 l = v l) ∧ (∀ d, d < h.net.nodes.size → d ≠ c → an5 d = an d)) := by
+  obtain ⟨h5, map, dang, sh, dn, r, hcore, ct, w', e, sq, ex⟩ :=
+    substitute_removing z neg prim h m h' c (WF.of_wf hw) (WF.of_wf mw) hc hio hcf hr hok he
   refine ⟨h5, map, dang, r, hcore, ?_, wfNoTrail_of_WFm w', ?_,
     fun j' hj => ⟨e.nodeLt j' hj, e.kind j' hj, e.name j' hj, e.pins j' hj (fun x => x)⟩, e.nodeInj, e.io,
     sq, fun l' hl => ⟨e.lineLt l' hl, (e.drv l' hl).2.1⟩, fun S an v hc => e.restrict S z neg prim an v hc,
-    fun S an v hc hrem => e.extend S z neg prim an v hc hrem⟩
+    fun S an v hc hrem => e.extend S z neg prim an v hc hrem, ?_, ?_⟩
+  rotate_left 2
+  · intro an' v' hc'
+    obtain ⟨an5, v5, c5, e1, e2⟩ := ex (fun _ => False) an' v' hc'
+    obtain ⟨f1, anm, vm, hM, _⟩ := ct.forward z neg prim (fun _ => False) (fun _ hs => absurd hs id) an5 v5 c5
+    exact ⟨an5, v5, e1, e2, consOff_congr (fun d => by simp) f1, sh, anm, vm, ct.shape, hM⟩
+  · intro sh' an v anm vm hs' hH hM
+    have : sh' = sh := Option.some.inj (hs'.symm.trans ct.shape)
+    subst this
+    obtain ⟨an5, v5, c5, b1, b2, _⟩ := ct.backward z neg prim (fun _ => False) an v anm vm (consOff_congr (fun d => by simp) hH) hM
+    exact ⟨an5, v5, e.restrict (fun _ => False) z neg prim an5 v5 c5, b1, b2⟩
   · exact ⟨sh, dn, map, ct.shape, ct.des, wf_of_WF ct.wf', ct.mapDn,
       fun j x hm => ⟨ct.mapM j x hm, ct.mapGe j x hm, ct.mapLt j x hm, ct.kind' j x hm⟩, ct.mapInj, ct.io', ct.frameNode, ct.lsize,
       fun S hS an' v' hc' => ct.forward z neg prim S hS an' v' hc',
